@@ -57,6 +57,9 @@ inductive Op
       buffer is released all the same -/
   | drop (id : Nat)
   | setMiss (n : Nat)
+  /-- any other controller message — in particular a flow_mod WITHOUT a buffer id that installs, changes or deletes table
+      entries (whatever those entries' actions are): the pool and what was handed out are untouched -/
+  | other
 
 inductive Out
   | packetIn (bid : Option Nat) (data : Bytes) (total : Nat) (port : Nat)
@@ -95,6 +98,7 @@ def step (s : St) : Op → St × Out
   | .useCtl id dl => useCtlStep s id dl
   | .drop id => ((useStep s id).1, .nothing)
   | .setMiss n => ({ s with missLen := n }, .nothing)
+  | .other => (s, .nothing)
 
 def init (max missLen : Nat) : St := { pool := { slots := [], max := max }, missLen := missLen, handed := [] }
 
